@@ -5,11 +5,10 @@ set -e
 WT=$(mktemp -d /tmp/mechwt.XXXXXX)
 rmdir $WT
 git -C /repo worktree add -q --detach $WT HEAD
+trap 'cd /; git -C /repo worktree remove --force $WT 2>/dev/null || true' EXIT
 cd $WT
 for k in $(cd /verif && /venv/bin/python -m emdverif.mechvar list); do
   git checkout -q -- .
   (cd /verif && /venv/bin/python -m emdverif.mechvar write $k $WT >/dev/null)
   echo "$k: $(PYTHONPATH=$WT /venv/bin/python -m pytest -q -p no:cacheprovider --timeout=900 emd 2>&1 | tail -1)"
 done
-cd /
-git -C /repo worktree remove --force $WT
